@@ -812,6 +812,39 @@ def r12e(P, R):
             elif not exhaust:
                 undecided += 1
                 R.undecided("R12-e", "closure:no-early-exit", "%s leaves a loop early under a condition that is not recognised" % f.path, loc=f.loc())
+    # ... and no selection is passed over because of what it *contains*: a `continue` (or a helper's early `return`) inside a
+    # traversal loop, or a narrowing adaptor over the selections, may be decided by the kind of the selection, the set of names
+    # already seen, the presence of a nested selection set and the fragment lookup — not by any other component (directives,
+    # arguments, ...): the JSON printer emits the selection all the same, so the document would spread a fragment it does not define
+    ALLOWED = {("Field", "selection_set"), ("InlineFragment", "selection_set"), ("FragmentDefinition", "selection_set"),
+               ("SelectionSet", "selections"), ("FragmentSpread", "fragment_name"), ("Ident", "name")}
+    T = A.closure_T
+    tp = Prov(T)
+    accT = T.nodes()
+    skipped = set()
+    for j, (n, _) in enumerate(accT):
+        if n.get("k") in ("Continue", "InlRet") and "desugar" not in (n.get("x") or ""):
+            p, loop = accT[j][1], None
+            while p >= 0 and loop is None:
+                if accT[p][0].get("k") == "Loop":
+                    loop = accT[p][0]
+                p = accT[p][1]
+            if loop is None:
+                continue
+            for g in guards_of(T, j, stop=loop):
+                if g["kind"] in ("cond", "pat", "arm") and g["e"] is not None:
+                    skipped |= _ast_fields(tp.deep_atoms(g["e"])) - ALLOWED
+        elif n.get("k") == "MethodCall" and n["method"] in LOSSY_OR_REORDERING and n["args"] \
+                and "selection_set::Selection" in norm(n.get("recv_ty") or ""):
+            for a in n["args"]:
+                skipped |= _ast_fields(tp.deep_atoms(a)) - ALLOWED
+    if skipped:
+        R.violated("R12-e", "closure:content-skip",
+                   "%s passes over a selection depending on %s: the fragment closure becomes conditional on the content of a selection "
+                   "(not on its kind, the names already seen or the fragment lookup) while the JSON printer still emits that selection — "
+                   "the embedded document can spread a fragment it does not define" % (C.path, sorted("%s.%s" % x for x in skipped)), loc=C.loc())
+    else:
+        R.holds("R12-e", "closure:content-skip", "no selection is passed over because of its content", loc=C.loc())
     if not exits and not undecided:
         R.holds("R12-e", "closure:no-early-exit", "the fragment-closure loops visit every selection (only `continue` skips one; a loop ends when its work list is exhausted)",
                 loc=C.loc())
